@@ -711,6 +711,26 @@ func runC16(c *Ctx) {
 				}
 			}
 			if def == ref.NearestEven {
+				// systematic sweep of large arguments (1e4 .. 1e6) where results are far beyond the
+				// range and internal 16-bit exponents are at risk: every window wider than the step is hit
+				step := c.Pick(100, 20)
+				kk := 0
+				for v := 10000; v < 1000000; v += step {
+					kk++
+					if kk%c.Shards != sh.ID {
+						continue
+					}
+					frac := int64(r.Intn(1000))
+					cf := new(big.Int).Add(new(big.Int).Mul(big.NewInt(int64(v)), big.NewInt(1000)), big.NewInt(frac))
+					for _, neg := range []bool{false, true} {
+						j.judge(0, decOf(neg, cf, -3))
+						j.judge(3, decOf(neg, cf, -3))
+						if kk%4 == 0 {
+							j.judge(1, decOf(neg, cf, -3))
+							j.judge(2, decOf(neg, cf, -3))
+						}
+					}
+				}
 				// every integer through the admissible range of Exp2 / Exp10 (split over shards; quick: strided)
 				stride := c.Pick(16, 1)
 				k := 0
